@@ -254,11 +254,34 @@ def variants_cube(rec, seed, n, positions, bg_kind):
         t = t ^ (bit << (pos % 64))
     words.append(mk(t, 64, False))
   cexs = []
+  # anchor to the textbook algorithm: the background and single-bit flips
+  bm = _bm()
+  anchors = [bg] + [bg ^ (1 << pos) for pos in positions]
+  for sv in anchors:
+    want = textbook_concrete(sv, n)
+    wds = [V((sv >> (64 * i)) & (2**64 - 1), 64, False) for i in range(nwords)]
+    g1 = cxxsym.lfsr_length_impl(wds, n, True)[0]
+    g2 = cxxsym.lfsr_length_impl(wds, n, False)[0]
+    g3 = bm.LinearComplexityNative(sv, n)
+    rec.replayed()
+    if not (g1.concrete and g1.v == want and g2.concrete and g2.v == want and
+            g3 == want):
+      cexs.append(('anchor_vs_textbook', sv, n))
+    else:
+      rec.obligation('proved')
+  if cexs:
+    # a ground instance of the cube already fails: report it (the symbolic
+    # query over the whole cube would only find the same class of input)
+    rec.reach(1, 1)
+    _report(rec, 'berlekamp_massey.cc:LfsrLengthImpl', cexs)
+    return
   try:
     r1, it1 = cxxsym.lfsr_length_impl(words, n, True)
     r2, it2 = cxxsym.lfsr_length_impl(words, n, False)
   except cxxsym.Unsupported as ex:
     rec.inconclusive('source left the supported subset: %s' % ex)
+    rec.reach(1, 1)
+    _report(rec, 'berlekamp_massey.cc:LfsrLengthImpl', cexs)
     return
   rec.path('merged')
   rec.path('merged')
@@ -280,21 +303,6 @@ def variants_cube(rec, seed, n, positions, bg_kind):
       if (vv >> k) & 1:
         sval ^= 1 << pos
     cexs.append(('clmul_vs_portable', sval, n))
-  # anchor to the textbook algorithm: the background and single-bit flips
-  bm = _bm()
-  anchors = [bg] + [bg ^ (1 << pos) for pos in positions]
-  for sv in anchors:
-    want = textbook_concrete(sv, n)
-    wds = [V((sv >> (64 * i)) & (2**64 - 1), 64, False) for i in range(nwords)]
-    g1 = cxxsym.lfsr_length_impl(wds, n, True)[0]
-    g2 = cxxsym.lfsr_length_impl(wds, n, False)[0]
-    g3 = bm.LinearComplexityNative(sv, n)
-    rec.replayed()
-    if not (g1.concrete and g1.v == want and g2.concrete and g2.v == want and
-            g3 == want):
-      cexs.append(('anchor_vs_textbook', sv, n))
-    else:
-      rec.obligation('proved')
   rec.reach(1, 1)
   rec.sample(dict(n=n, background=bg_kind, symbolic_bits=positions,
                   merges=[it1.merges, it2.merges]))
@@ -632,7 +640,7 @@ def jobs(tier, seed):
                                                    n - 1)][:6], bg))
   for i, (n, pos, bg) in enumerate(cubes):
     out.append(Job('cube_n%d_%s_%d' % (n, bg, i), variants_cube,
-                   dict(n=n, positions=pos, bg_kind=bg), timeout=3000,
+                   dict(n=n, positions=pos, bg_kind=bg), timeout=1200,
                    cost=n / 16.0))
   out.append(Job('counts', counts, dict(nmax=8 if not thorough else 10),
                  timeout=3000, cost=30))
